@@ -397,5 +397,60 @@ def withIds (names : List String) (ids : List (Option Nat)) : List String :=
     | some k => "Sim. " ++ toString k ++ " " ++ n
     | none => n) names ids
 
+/-! ## call histories on ONE posterior object: every `evaluateS1` returns a NEW array
+
+`evaluateS1` starts with `sensitivities = np.empty(shape=self._n_parameters)`, fills that array and
+returns it (the early exits return it as far as it was filled).  The caller keeps what it got — the
+gradient of the current state of a sampler while the proposal is evaluated, one gradient per chain,
+a list of (score, gradient) pairs — and may even write into it (`g *= -1` for a minimiser).
+Arrays are cells of a store; a handle is the index of the cell. -/
+
+/-- the arrays handed out so far, by identity: the `k`-th `evaluateS1` call returned cell `k` -/
+abbrev Arrays (γ : Type) := List (List γ)
+
+/-- what a caller does with one posterior object -/
+inductive Ev (γ : Type) where
+  /-- `g = posterior.evaluateS1(x)[1]`; the caller keeps `g` -/
+  | s1 (x : List γ)
+  /-- `posterior(x)`: a scalar, no array is handed out -/
+  | call (x : List γ)
+  /-- the caller overwrites the array it got from the `k`-th `evaluateS1` call -/
+  | scribble (k : Nat) (v : List γ)
+
+/-- does the event write into cell `i` from the caller's side? -/
+def Ev.touches {γ : Type} : Ev γ → Nat → Bool
+  | .scribble k _, i => k == i
+  | _, _ => false
+
+/-- one event.  `F x` = the content of the array `evaluateS1(x)` allocated when it returns (early
+    exits: whatever they leave in it) -/
+def histStep {γ : Type} (F : List γ → List γ) (h : Arrays γ) : Ev γ → Arrays γ
+  | .s1 x => h ++ [F x]
+  | .call _ => h
+  | .scribble k v => h.set k v
+
+/-- a call history -/
+def hist {γ : Type} (F : List γ → List γ) (h : Arrays γ) (evs : List (Ev γ)) : Arrays γ :=
+  evs.foldl (histStep F) h
+
+/-- `buf[:len(w)] = w` -/
+def overlay {γ : Type} (w buf : List γ) : List γ := w ++ buf.drop w.length
+
+/-- NOT chi: ONE array allocated in `__init__`, filled and returned by every `evaluateS1` call
+    (`W x` = the entries the call writes: all of them, or only the first ones on an early exit).
+    Every handle is the same cell, the state is its content. -/
+def histStepShared {γ : Type} (W : List γ → List γ) (buf : List γ) : Ev γ → List γ
+  | .s1 x => overlay (W x) buf
+  | .call _ => buf
+  | .scribble _ v => v
+
+def histShared {γ : Type} (W : List γ → List γ) (buf : List γ) (evs : List (Ev γ)) : List γ :=
+  evs.foldl (histStepShared W) buf
+
+/-- the `n` entries of `evaluateS1(x)[1]` as the array the caller receives -/
+def gradArray {τ : Type} (c : Cfg) (E : Env τ α) (G : GradEnv α) (filt : AnyFilt α)
+    (sortedTimes : Nat → τ) (dflt : α) (x : List α) : List α :=
+  (List.range c.nParameters).map (gradRaw c E G filt sortedTimes (fun i => x.getD i dflt))
+
 end FP
 end ChiModel
